@@ -176,6 +176,15 @@ func (e *Engine) BuildVC(fn *ssa.Function) (vc *FnVC) {
 			}
 			pfr.lets = merged
 		}
+		// exit cover: the normal exit must be reachable under the contracts used in the body (a contradiction between an
+		// assumed callee contract and the heap typing makes everything after that call provable)
+		vc.emit(";;EXIT-BEGIN")
+		vc.emit("(push 1)")
+		vc.emit("(assert %s)", fin.reach)
+		vc.emit("(echo \"@exit\")")
+		vc.emit("(check-sat)")
+		vc.emit("(pop 1)")
+		vc.emit(";;EXIT-END")
 		// postconditions may mention parameters (entry values), results and lets only: local variables are not in scope
 		for _, c := range sp.Clauses {
 			if c.Kind != "ensures" {
